@@ -1,0 +1,76 @@
+//go:build verif
+
+package assertiontree
+
+import (
+	"fmt"
+	"go/ast"
+
+	"golang.org/x/tools/go/cfg"
+)
+
+// This file is only compiled with the `verif` build tag. It lets the verification harness of /verif run the real
+// propagateRichChecks on a synthetic control-flow graph with synthetic effects (model M13, coq/model/RichFlow.v).
+
+type verifEffect struct {
+	id       int
+	killedAt map[ast.Node]bool
+}
+
+func (e *verifEffect) isTriggeredBy(ast.Expr) bool        { return false }
+func (e *verifEffect) isInvalidatedBy(node ast.Node) bool { return e.killedAt[node] }
+func (e *verifEffect) effectIfTrue(*RootAssertionNode)    {}
+func (e *verifEffect) effectIfFalse(*RootAssertionNode)   {}
+func (e *verifEffect) isNoop() bool                       { return false }
+func (e *verifEffect) equals(other RichCheckEffect) bool  { return RichCheckEffect(e) == other }
+
+// VerifPropagateRichChecks builds a CFG with the given successor lists and liveness, one node per block, effects
+// gen[b] created in block b and kill[b] invalidated by the node of block b, runs propagateRichChecks and returns the
+// effect ids at the end of every block (in the order the real code keeps them).
+func VerifPropagateRichChecks(succs [][]int, live []bool, gen [][]int, kill [][]int) (out [][]int, panicked string) {
+	defer func() {
+		if r := recover(); r != nil {
+			panicked = fmt.Sprint(r)
+		}
+	}()
+	n := len(succs)
+	graph := &cfg.CFG{}
+	nodes := make([]ast.Node, n)
+	for i := 0; i < n; i++ {
+		nodes[i] = &ast.Ident{Name: fmt.Sprintf("n%d", i)}
+		graph.Blocks = append(graph.Blocks, &cfg.Block{Index: int32(i), Live: live[i], Nodes: []ast.Node{nodes[i]}})
+	}
+	for i, ss := range succs {
+		for _, s := range ss {
+			graph.Blocks[i].Succs = append(graph.Blocks[i].Succs, graph.Blocks[s])
+		}
+	}
+	effects := map[int]*verifEffect{}
+	effect := func(id int) *verifEffect {
+		if e, ok := effects[id]; ok {
+			return e
+		}
+		e := &verifEffect{id: id, killedAt: map[ast.Node]bool{}}
+		effects[id] = e
+		return e
+	}
+	richCheckBlocks := make([][]RichCheckEffect, len(gen))
+	for b, ids := range gen {
+		for _, id := range ids {
+			richCheckBlocks[b] = append(richCheckBlocks[b], effect(id))
+		}
+	}
+	for b, ids := range kill {
+		for _, id := range ids {
+			effect(id).killedAt[nodes[b]] = true
+		}
+	}
+	res := propagateRichChecks(graph, richCheckBlocks)
+	out = make([][]int, len(res))
+	for b, es := range res {
+		for _, e := range es {
+			out[b] = append(out[b], e.(*verifEffect).id)
+		}
+	}
+	return out, ""
+}
